@@ -44,6 +44,8 @@ type c10Scenario struct {
 	CutInFrame int
 	// the request is served on the trigger frame (two recordings start together)
 	SameFrameStart bool
+	// pause between frames in ms (default 2)
+	PaceMS int
 }
 
 func c10Frames(cam pCamera, pattern string) []*pFrame {
@@ -98,6 +100,11 @@ func c10Scenarios() []c10Scenario {
 	out = append(out, s7)
 	s8 := c10Scenario{Name: "S8", What: "test-recording request served on the frame that triggers a motion recording (both files start in the same millisecond)", Cfg: base(), Cam: cam, Frames: c10Frames(cam, "ffffmmmffffffffffffffffffffffffff"), SnapAtFrame: 4, SameFrameStart: true}
 	out = append(out, s8)
+	c9 := base()
+	c9.Throttle, c9.BucketSize, c9.MinRefill = true, "3s", "200ms"
+	c9.MaxSecs = 30
+	s9 := c10Scenario{Name: "S9", What: "throttle cut and restart in the middle of one long trigger", Cfg: c9, Cam: cam, Frames: c10Frames(cam, "fff"+strings.Repeat("m", 50)+"ffff"), PaceMS: 10}
+	out = append(out, s9)
 	return out
 }
 
@@ -317,7 +324,11 @@ func TestVerif_C10Child(t *testing.T) {
 			}
 			// let recordings started in different frames get different millisecond names,
 			// as a real camera (>= 16 ms per frame) always does
-			time.Sleep(2 * time.Millisecond)
+			pace := 2
+			if sc.PaceMS > 0 {
+				pace = sc.PaceMS
+			}
+			time.Sleep(time.Duration(pace) * time.Millisecond)
 		}
 		return nil
 	}
@@ -422,7 +433,9 @@ func TestVerif_C10(t *testing.T) {
 				os.Unsetenv("VERIF_C10_NO_OBSERVER")
 				c.Count("same_frame_start_repetitions", 11)
 				if err == nil && o.I1InChild != "" {
-					c.Case(int64(si*10000+9000+rep), func() interface{} { return map[string]interface{}{"scenario": sc.Name, "what": sc.What, "repetition": rep} }, func() {
+					c.Case(int64(si*10000+9000+rep), func() interface{} {
+						return map[string]interface{}{"scenario": sc.Name, "what": sc.What, "repetition": rep}
+					}, func() {
 						c.Violation("incomplete-file-bears-cptv-name", sc.Name+"; observed while running", fmt.Sprintf("scenario %s (%s), uncrashed repetition %d: %s", sc.Name, sc.What, rep, tail(o.I1InChild, 1200)))
 					})
 				}
